@@ -32,10 +32,12 @@ impl TaskLogWriter {
 fn main() {
     let steps = [Step::Take(1), Step::Take(2), Step::Take(usize::MAX), Step::Zero, Step::Intr, Step::Fail];
     // caps 0..6, two consecutive chunks of lengths 0..4, every write script of length <= 3
-    for cap in 0u64..=6 { for l1 in 0usize..=4 { for l2 in 0usize..=4 { for slen in 0..=3usize { for code in 0..steps.len().pow(slen as u32) {
+    for content in 0..2u8 { for cap in 0u64..=6 { for l1 in 0usize..=4 { for l2 in 0usize..=4 { for slen in 0..=3usize { for code in 0..steps.len().pow(slen as u32) {
         let mut c = code; let script: Vec<Step> = (0..slen).map(|_| { let s = steps[c % steps.len()]; c /= steps.len(); s }).collect();
         let mut w = TaskLogWriter { artifact_id: "id".into(), rel_path: "p".into(), file: File { data: vec![], script: script.clone(), pos: 0 }, max_bytes: cap, bytes_total: 0, bytes_stored: 0, truncated: false };
-        let chunks: [Vec<u8>; 2] = [(0..l1 as u8).collect(), (10..10 + l2 as u8).collect()];
+        // content 0: distinct ASCII bytes; content 1: multi-byte UTF-8 text, so the cap also falls inside characters
+        let pool: &[u8] = if content == 0 { &[1, 2, 3, 4, 10, 11, 12, 13] } else { "a\u{e9}\u{20ac}b\u{e9}".as_bytes() };
+        let chunks: [Vec<u8>; 2] = [pool[..l1].to_vec(), pool[l1..l1 + l2].to_vec()];
         let mut all: Vec<u8> = Vec::new(); let mut expect_off = 0u64; let mut ok_so_far = true;
         for ch in &chunks {
             let before_stored = w.bytes_stored; let before_len = w.file.data.len();
@@ -56,9 +58,9 @@ fn main() {
                 Err(()) => { ok_so_far = false; if w.file.data.len() < before_len || w.file.data[..] != all[..w.file.data.len().min(all.len())][..] && w.file.data.len() <= all.len() && false { problem = Some("file shrank".into()); } }
             }
             if let Some(p) = problem {
-                println!("WITNESS {{\"function\": \"TaskLogWriter::append\", \"cap\": {}, \"chunk_lengths\": [{}, {}], \"write_script\": {:?}, \"result\": {:?}, \"file_len\": {}, \"problem\": {:?}}}", cap, l1, l2, format!("{:?}", script), res.as_ref().ok(), w.file.data.len(), p);
+                println!("WITNESS {{\"function\": \"TaskLogWriter::append\", \"cap\": {}, \"chunks\": {:?}, \"write_script\": {:?}, \"result\": {:?}, \"file_len\": {}, \"problem\": {:?}}}", cap, format!("{:?}", chunks), format!("{:?}", script), res.as_ref().ok(), w.file.data.len(), p);
                 return;
             }
         }
-    } } } } }
+    } } } } } }
 }
